@@ -49,8 +49,14 @@ def gen_mj():
     refine_lt = re.search(r"sum\s*\+\s*weights\[permutation\[idx\]\]\s*<\s*threshold", csp) is not None
     ulps = re.search(r"Ulps::default\(\)\.eq\(&threshold,", csp) is not None
     bounded = re.search(r"while\s+idx\s*<\s*permutation\.len\(\)", csp) is not None
-    out = HEADER.format(src=rel)
+    lock = read("Cargo.lock")
+    m = re.search(r'name = "approx"\s*\nversion = "(\d+)\.(\d+)\.(\d+)"', lock)
+    if not m:
+        raise Fail("approx not found in Cargo.lock")
+    approx = tuple(int(x) for x in m.groups())
+    out = HEADER.format(src=rel + " and Cargo.lock")
     out += "From Coq Require Import NArith.\n"
+    out += "Definition approx_version : N * N * N := (%d, %d, %d)%%N.\n" % approx
     out += "Definition mj_counter_first : N := %d%%N.\n" % first_id
     out += "Definition mj_counter_incr : N := %d%%N.\n" % incr
     out += "Definition mj_leaf_num_splits : N := %d%%N.\n" % leaf_splits
